@@ -260,7 +260,11 @@ def restrict_join(behs, infos):
         j = b["join"]
         if info["pkts"][j - 1]["t"] != ts[0]:
             continue
-        limit = max(p["i"] for p in info["pkts"] if p["t"] <= ts[2])
+        # "within two further full cycles of the objects and the FDT": up to the end of the poll in which the
+        # FDT starts its second transmission after the join (the FDT may be repeated less often than the objects)
+        fstarts = sorted({p["t"] for p in info["pkts"] if p["k"] == "fdt" and p["sbn"] == 0 and p["esi"] == 0 and p["i"] > j})
+        tlim = max(ts[2], fstarts[1]) if len(fstarts) >= 2 else ts[-1]
+        limit = max(p["i"] for p in info["pkts"] if p["t"] <= tlim)
         nb = dict(b)
         nb["sched"] = [["seq", j, limit]]
         nb["limit"] = limit
